@@ -274,6 +274,7 @@ type c13Env struct {
 	// per-history feature bookkeeping (between two pulls)
 	roleDeletedSincePull bool
 	flapSincePull        bool
+	loadedWhileRoleGone  bool // the user was loaded (rebuilt and saved: the gap is in its role history) while a role it holds again was gone
 	opsSincePull         int
 	sawSkipped           bool
 	violated             bool
@@ -826,11 +827,30 @@ func (e *c13Env) scripted(r *vlib.Rand, which int, pull func()) {
 		d1.RoleTo, d1.Role = "", ""
 		e.writeDoc(d1, "doc-regrant")
 		pull()
+	case 6: // a role lost and held again between two pulls, with the user loaded while the role was gone (another device of
+		// the same user makes a request); meanwhile the document changed and the role stopped granting the channel
+		e.m.Roles[r1].Ch = map[string]bool{A: true}
+		e.putRole(r1)
+		e.m.UserRoles[r1] = true
+		e.putUser(false)
+		pull()
+		e.m.UserRoles = map[string]bool{}
+		e.putUser(false)
+		e.admin("user-load", "GET", "/{{.db}}/_user/"+e.user, "")
+		e.rt.SendUserRequest("GET", "/{{.db}}/", "", e.user) // a request of the user itself (second device)
+		e.loadedWhileRoleGone = true
+		e.writeDoc(d0, "doc-rewrite")
+		e.m.Roles[r1].Ch = map[string]bool{}
+		e.putRole(r1)
+		e.m.UserRoles[r1] = true
+		e.putUser(false)
+		e.flapSincePull = true
+		pull()
 	}
 	_ = r
 }
 
-const c13Scripted = 6
+const c13Scripted = 7
 
 // ---------------------------------------------------------------------------------------------
 // REST client model
@@ -1136,6 +1156,11 @@ func (e *c13Env) classifyStale(d *c13Doc, last, now *c13Snap, obs *c13PullObs) s
 		if flapped && last.Rev[d.ID] != d.Rev {
 			// the user lost the role and holds it again (no principal rebuild in between records the gap), the
 			// role stopped granting the channel (or was deleted), and the document was written after the pull
+			if e.loadedWhileRoleGone {
+				// the gap IS recorded in the user's role history (the user was rebuilt while the role was gone): a different history
+				// from the listed finding, which needs the gap to be unrecorded
+				return "channel-held-through-role|role-lost-and-held-again-between-pulls|user-loaded-while-the-role-was-gone|role-stopped-granting-the-channel-meanwhile"
+			}
 			return "channel-held-through-role|role-lost-and-held-again-between-pulls|role-stopped-granting-the-channel-meanwhile"
 		}
 	}
@@ -1403,6 +1428,7 @@ func (e *c13Env) judge(obs *c13PullObs, limit int) {
 	cl.Last = now
 	cl.Pulls++
 	e.roleDeletedSincePull, e.flapSincePull, e.opsSincePull = false, false, 0
+	e.loadedWhileRoleGone = false
 	e.lostCh, e.rolesDeleted, e.rolesRecreated, e.rolesCreated, e.grantChanged, e.grantBase, e.roleLost = nil, nil, nil, nil, nil, nil, nil
 	e.lostSeq, e.gainedSeq, e.heldPrev = nil, nil, nil
 	e.track()
